@@ -420,6 +420,7 @@ class Engine:
             ops = tuple(self.operand(item, frame, st, o) for o in rv["ops"])
             a = kd["a"]
             if a == "adt":
+                VARIANT_INDEX[(kd["path"], kd["vn"])] = kd.get("vi")
                 return ("adt", kd["path"], kd["vn"], tuple(kd["fields"]), ops)
             if a == "tuple":
                 return ("tuple", ops)
@@ -1127,6 +1128,10 @@ def norm_cond(d, dty, cv):
                 return True, ("ok", inner), False
         return True, ("d", inner), cv
     return True, ("v", d), cv
+
+
+# (adt path, variant name) -> variant index, for every aggregate evaluated so far
+VARIANT_INDEX = {}
 
 
 def consistent(trace, atom, val):
